@@ -268,6 +268,9 @@ func checkResolveCase(c *resolveCase, srv *dohServer, setZone func(func(id int, 
 	defer cancel()
 	got, rerr := res.Resolve(ctx, arg)
 	qs := srv.takeQueries()
+	if envError(rerr) {
+		return "ENV: " + rerr.Error()
+	}
 
 	want := c.Result
 	if want.Kind == "err" {
@@ -427,8 +430,12 @@ func TestResolveCases(t *testing.T) {
 	}
 	close(jobs)
 	wg.Wait()
-	bad := 0
+	bad, env := 0, 0
 	for i, d := range results {
+		if strings.HasPrefix(d, "ENV: ") {
+			env++
+			continue
+		}
 		if d != "" {
 			bad++
 			if bad <= 40 {
@@ -437,7 +444,7 @@ func TestResolveCases(t *testing.T) {
 			}
 		}
 	}
-	w.Write(Ev{"summary": true, "cases": len(cases), "bad": bad})
+	w.Write(Ev{"summary": true, "cases": len(cases), "bad": bad, "env": env})
 }
 
 func TestInputFormLengths(t *testing.T) {
